@@ -34,18 +34,6 @@ theorem headOffs_advance_le (c : Cfg) (s : State) (p : Nat) :
       omega
   · rw [Nat.max_eq_left (by omega)]; omega
 
-/-- what `discard()` leaves in unord_q for a job that lies behind `ho` -/
-theorem ubOK_orphan {c : Cfg} {g : Nat} {j : Job} {s' : State} (hj : jobOK c g j)
-    (hb : j.base < headOffs c s') : ∀ u ∈ j.orphan, ubOK c s' u := by
-  intro u hu
-  unfold Job.orphan at hu
-  split at hu
-  · simp at hu
-  · split at hu
-    · simp at hu
-    · simp only [List.mem_singleton] at hu; subst hu
-      exact ⟨rfl, fun _ => Or.inr hb⟩
-
 theorem ubOK_mono {c : Cfg} {s s' : State} {u : UB} (h : ubOK c s u)
     (hh : headOffs c s ≤ headOffs c s') : ubOK c s' u := by
   refine ⟨h.1, fun hi => ?_⟩
@@ -70,14 +58,7 @@ theorem SI_advance {c : Cfg} {s : State} (p : Nat) (h : SI c s)
   · intro hh; have := a6 hh; omega
   · intro j hj; exact a7 j (List.mem_filter.1 hj).1
   · intro hd u hu
-    simp only [advance, List.mem_append, List.mem_flatMap] at hu
-    rcases hu with ⟨j, hj, hu⟩ | hu
-    · have hjm := List.mem_filter.1 hj
-      have hlt' : j.curr < offs c (newHead c s p) := by simpa using hjm.2
-      have hlt : j.curr < headOffs c (advance c s p) := hlt'
-      have hjo := a7 j hjm.1
-      exact ubOK_orphan hjo (by have := hjo.2.2.2.1; omega) u hu
-    · exact ubOK_mono (a11 hd u hu) (headOffs_advance_ge c s p)
+    exact ubOK_mono (a11 hd u hu) (headOffs_advance_ge c s p)
   · intro hd b hb
     have := headOffs_advance_le c s p
     have h1 := a13 hd b hb
@@ -118,7 +99,7 @@ theorem SI_busy_erase {c : Cfg} {s : State} (ph : Phase) (h : SI c s) :
 /-! ### scanEnd -/
 
 theorem SI_scanNew {c : Cfg} {s1 : State} (x : Nat) (h1 : SI c s1) :
-    SI c (scanNew s1 x) ∧ (scanNew s1 x).failed = s1.failed := by
+    SI c (scanNew c s1 x) ∧ (scanNew c s1 x).failed = s1.failed := by
   unfold scanNew; split
   · exact ⟨SI_congr h1 rfl rfl rfl rfl rfl rfl rfl rfl rfl rfl rfl rfl rfl, rfl⟩
   · obtain ⟨a1, a2, a3, a4, a5, a6, a7, a8, a9, a10, a11, a12, a13⟩ := h1
@@ -162,20 +143,9 @@ theorem SI_scanEnd {c : Cfg} {s s' : State} {st k : Nat} (h : SI c s)
 
 /-! ### retrEnd -/
 
-theorem SI_retrExit {c : Cfg} {s1 : State} {j : Job} {g : Nat} (hj : jobOK c g j) (h1 : SI c s1)
-    (hx : s1.pdone = true ∨ j.orphan = [] ∨ j.base < headOffs c s1) :
-    SI c (retrExit s1 j) := by
-  obtain ⟨a1, a2, a3, a4, a5, a6, a7, a8, a9, a10, a11, a12, a13⟩ := h1
-  refine ⟨a1, a2, a3, a4, a5, a6, a7, a8, a9, a10, ?_, a12, a13⟩
-  intro hd u hu
-  have hd' : s1.pdone = false := hd
-  simp only [retrExit, List.mem_append] at hu
-  rcases hu with hu | hu
-  · rcases hx with hx | hx | hx
-    · rw [hx] at hd'; cases hd'
-    · rw [hx] at hu; cases hu
-    · exact ubOK_orphan (s' := retrExit s1 j) hj hx u hu
-  · exact a11 hd' u hu
+theorem SI_retrExit {c : Cfg} {s1 : State} (j : Job) (h1 : SI c s1) :
+    SI c (retrExit s1 j) :=
+  SI_congr h1 rfl rfl rfl rfl rfl rfl rfl rfl rfl rfl rfl rfl rfl
 
 theorem SI_retrMove {c : Cfg} {s1 : State} (j : Job) (newc : Nat) (h1 : SI c s1)
     (hm : j.master = true → newc ≤ s1.gnext) :
@@ -222,14 +192,6 @@ theorem ejOK_new (c : Cfg) (j : Job) :
 
 theorem newc_ge (c : Cfg) (j : Job) (k : Option Nat) : j.curr ≤ retrNewc c j k := by
   unfold retrNewc; split <;> omega
-
-theorem orphan_redundant {j : Job} (h : j.redundant = true) : j.orphan = [] := by
-  unfold Job.redundant at h; unfold Job.orphan
-  cases hu : j.ub with
-  | none => rfl
-  | some f =>
-    simp only [hu, Bool.and_eq_true] at h ⊢
-    simp [h.1]
 
 theorem mc_retrMoreJob (j : Job) (newc : Nat) : Job.mc (retrMoreJob j newc) = Job.mc j := by
   unfold retrMoreJob Job.mc
@@ -294,12 +256,12 @@ theorem SI_retrEnd {c : Cfg} {s s' : State} {j : Job} {k : Option Nat} (h : SI c
     by_cases hpd : s1.pdone = true
     · rw [if_pos hpd] at hs
       simp only [Option.some.injEq] at hs; subst hs
-      exact ⟨SI_retrExit hj h1 (Or.inl hpd), f6⟩
+      exact ⟨SI_retrExit j h1, f6⟩
     · rw [if_neg hpd] at hs
       by_cases hab : j.redundant = true
       · rw [if_pos hab] at hs
         simp only [Option.some.injEq] at hs; subst hs
-        exact ⟨SI_retrExit hj h1 (Or.inr (Or.inl (orphan_redundant hab))), f6⟩
+        exact ⟨SI_retrExit j h1, f6⟩
       · rw [if_neg hab] at hs
         have hna' : j.redundant = false := by simpa using hab
         have hmaster : j.master = true → Job.mc j = true := fun hm => master_mc hm hna'
@@ -317,10 +279,7 @@ theorem SI_retrEnd {c : Cfg} {s s' : State} {j : Job} {k : Option Nat} (h : SI c
           · -- "Retriever was overtaken": discard
             rw [if_pos hov] at hs
             simp only [Option.some.injEq] at hs; subst hs
-            refine ⟨SI_retrExit hjm h2 (Or.inr (Or.inr ?_)), m4.trans f6⟩
-            have := hj.2.2.2.1
-            show j.base < headOffs c s2
-            omega
+            exact ⟨SI_retrExit _ h2, m4.trans f6⟩
           · -- MORE: back to retr_q
             rw [if_neg hov] at hs
             simp only [Option.some.injEq] at hs; subst hs
